@@ -24,3 +24,109 @@ PROPERTY = PropertySpec(
     technique='contract-based deductive verification (pyvc + z3), ghost pass history with finiteness facts; known-findings carve-out re-proved per run',
     design_ref='DESIGN.md section 10 / C06',
 )
+
+
+# ---------------------------------------------------------------------------------------------------------------------
+# parser-built models whose equations produce the fault naturally (division by zero, log of zero, overflow, 0/0)
+# ---------------------------------------------------------------------------------------------------------------------
+import math as _math
+import warnings as _warnings
+
+import numpy as _np
+
+from verif.bounded import BoundedCheck, BoundedResult, Violation
+
+
+class NaturalFaults(BoundedCheck):
+    """The policy state machine on models built by the parser: the second equation of `Y = X + 1 / W = <faulting expression of Z>` produces a
+    non-finite value (with a NumPy warning) at one chosen period on every pass; every errors x failures x catch_first_error x max_iter."""
+    name = 'c06.natural-faults'
+    props = ('C06',)
+    bound_quick = ('4 naturally faulting expressions (1/Z, log(Z), exp(Z) overflow, Z/Z at 0) x fault period x errors in {raise, skip, ignore, replace} x failures x '
+                   'catch_first_error x max_iter in {1, 3} x solve_t / solve_period / solve entry; healthy periods solve')
+    bound_thorough = bound_quick
+    required_covers = ('E', 'S', 'F', '.')
+    FAULTS = {'1 / Z': 0.0, 'log(Z)': 0.0, 'exp(Z)': 1000.0, 'Z / Z': 0.0}
+
+    def cases(self, tier, seed):
+        for expr in self.FAULTS:
+            for errors in ('raise', 'skip', 'ignore', 'replace'):
+                for failures in ('raise', 'ignore'):
+                    for cfe in (True, False):
+                        for ma in (1, 3):
+                            for entry in ('solve_t', 'solve_period', 'solve'):
+                                if entry == 'solve' and ma < 2:
+                                    continue            # a healthy period needs two passes (one to move, one to confirm)
+                                yield {'expr': expr, 'errors': errors, 'failures': failures, 'cfe': cfe, 'max_iter': ma, 'entry': entry}
+
+    def check(self, case, res: BoundedResult):
+        import fsic
+        from fsic.exceptions import NonConvergenceError, SolutionError
+        out = []
+        res.nontrivial.add(repr(case))
+        Model = fsic.build_model(fsic.parse_model(f"Y = X + 1\nW = {case['expr']}"))
+        span = list(range(2000, 2005))
+        m = Model(span, X=2.0, Z=3.0)
+        bad_t = 2
+        m.Z[bad_t] = self.FAULTS[case['expr']]
+        before_w = float(m.W[bad_t])
+        kw = dict(max_iter=case['max_iter'], errors=case['errors'], failures=case['failures'], catch_first_error=case['cfe'])
+        exc = result = None
+        with _warnings.catch_warnings():
+            _warnings.simplefilter('ignore')
+            try:
+                if case['entry'] == 'solve_t':
+                    result = m.solve_t(bad_t, **kw)
+                elif case['entry'] == 'solve_period':
+                    result = m.solve_period(span[bad_t], **kw)
+                else:
+                    result = m.solve(start=span[bad_t], end=span[bad_t + 1], **kw)
+            except Exception as ex:  # noqa: BLE001
+                exc = ex
+
+        def bad(clause, sig, expected, observed):
+            out.append(Violation(clause, sig, case, expected, observed))
+        ma = case['max_iter']
+        if case['errors'] == 'raise':
+            want = dict(status='E', iterations=1, exc='SolutionError')
+        elif case['errors'] == 'skip':
+            want = dict(status='S', iterations=1, exc=None, flag=False)
+        else:
+            want = dict(status='F', iterations=ma, exc='NonConvergenceError' if case['failures'] == 'raise' else None, flag=False)
+        res.cover(want['status'])
+        got_exc = type(exc).__name__ if exc is not None else None
+        if got_exc != want['exc']:
+            bad('the failing period raises exactly what its policy prescribes', f"c06.natural.exception:{want['exc']}->{got_exc}", want['exc'], f'{got_exc}: {exc}'[:90])
+        if str(m.status[bad_t]) != want['status'] or int(m.iterations[bad_t]) != want['iterations']:
+            bad('the failing period carries the status and pass count its policy prescribes', 'c06.natural.status', [want['status'], want['iterations']],
+                [str(m.status[bad_t]), int(m.iterations[bad_t])])
+        if exc is None and case['entry'] != 'solve' and result is not want.get('flag'):
+            bad('the result flag is True iff the period solved', 'c06.natural.flag', want.get('flag'), result)
+        # what is stored: stopping at the first warning (errors='raise' with catch_first_error) stores nothing; detection after the pass has stored the value
+        w = float(m.W[bad_t])
+        if case['errors'] == 'raise' and case['cfe']:
+            if not (w == before_w):
+                bad('stopping at the first numerical warning leaves the value unassigned', 'c06.natural.stored-despite-first-error', before_w, w)
+        elif _math.isfinite(w):
+            bad('a non-finite result detected after the pass is the value the pass stored', 'c06.natural.not-stored', 'non-finite', w)
+        if float(m.Y[bad_t]) != 3.0:
+            bad('equations before the faulting one are evaluated in the same pass', 'c06.natural.earlier-equation', 3.0, float(m.Y[bad_t]))
+        # the other periods are untouched, except the following one when solve() goes on after a contained failure
+        for t in range(len(span)):
+            if t == bad_t:
+                continue
+            follows = case['entry'] == 'solve' and t == bad_t + 1 and exc is None
+            if follows:
+                res.cover('.')
+                if str(m.status[t]) != '.' or float(m.W[t]) != _eval(case['expr'], 3.0):
+                    bad('after a contained failure the following periods are solved as usual', 'c06.natural.following-period', '.', [str(m.status[t]), float(m.W[t])])
+            elif str(m.status[t]) != '-' or int(m.iterations[t]) != -1:
+                bad('periods that are not solved are untouched', 'c06.natural.other-period', ['-', -1], [str(m.status[t]), int(m.iterations[t])])
+        return out
+
+
+def _eval(expr, z):
+    return {'1 / Z': 1 / z, 'log(Z)': _math.log(z), 'exp(Z)': _math.exp(z), 'Z / Z': 1.0}[expr]
+
+
+PROPERTY.bounded.append(NaturalFaults())
